@@ -525,6 +525,13 @@ func runC13(c C13Case, cs *kit.CaseStats) (err error) {
 				asks = append(asks, ask{from.Index(), o})
 			}
 		}
+		type keptSet struct {
+			target types.TransactionID
+			basis  types.ChainIndex
+			set    []types.V2Transaction
+			enc    [][]byte
+		}
+		var kept []keptSet
 		for _, a := range asks {
 			target := a.txn
 			arg := target.DeepCopy()
@@ -575,6 +582,7 @@ func runC13(c C13Case, cs *kit.CaseStats) (err error) {
 					}
 				}
 			}
+			kept = append(kept, keptSet{target.ID(), gotBasis, got, encV2s(got)})
 			if hasParent {
 				cs.Class("broadcast-set-with-parents")
 				if len(got) > 2 {
@@ -592,6 +600,37 @@ func runC13(c C13Case, cs *kit.CaseStats) (err error) {
 				}
 			}
 		}
+		// the caller keeps the assembled sets (as a wallet does for
+		// re-broadcasting) while the tip moves: they are the caller's own
+		// values, so nothing the pool does afterwards may show in them
+		l := tip.Ledger
+		for k := 0; k < 6; k++ {
+			b := kit.AssembleBlock(l.State, l.Block.Timestamp.Add(1e9), kit.Actors[k%kit.NumActors].Addr, nil, nil, uint64(7000+k))
+			nl, aerr := l.Apply(b, nil)
+			if aerr != nil {
+				break
+			}
+			if aerr := node.CM.AddBlocks([]types.Block{b}); aerr != nil {
+				return fmt.Errorf("empty block on the tip, accepted by the reference, was rejected: %v", aerr)
+			}
+			l = nl
+			_ = node.CM.V2PoolTransactions()
+			for _, ks := range kept {
+				if !sameEnc(ks.enc, encV2s(ks.set)) {
+					return fmt.Errorf("the set returned by V2TransactionSet for %v (basis %v, %d transactions) changed in the caller's hands after %d further block(s)", ks.target, ks.basis, len(ks.set), k+1)
+				}
+			}
+			cs.Class("kept-broadcast-set-across-tip-change")
+		}
+		snap := encV2s(node.CM.V2PoolTransactions())
+		for _, ks := range kept {
+			for i := range ks.set {
+				mutateV2(&ks.set[i], i)
+			}
+		}
+		if !sameEnc(snap, encV2s(node.CM.V2PoolTransactions())) {
+			return fmt.Errorf("writing to the transactions V2TransactionSet returned changed the pool")
+		}
 	}
 	return nil
 }
@@ -606,7 +645,7 @@ func txIDs(txns []types.V2Transaction) []string {
 
 var c13Prop = kit.Prop[C13Case]{
 	ID:   "C13",
-	Rule: "rapid fork trees (v2 reachable) fed to one manager; (from, to) drawn from all valid nodes; a v2 transaction set valid at from (optionally starting with the transactions of a child block of from, plus payments, two-input merges, siafund spends, contract formations/revisions/renewals/proofs/expirations with ephemeral parents) built on the reference ledger and confirmed valid by core. UpdateV2TransactionSet on a deep copy must return the input order minus members confirmed on the path, every input that is live at the target must carry exactly the ledger's leaf index and proof (including ephemeral inputs confirmed on the way), everything must verify against the target accumulator, and - for height-independent kinds whose inputs nothing on the path touched - validate under core at the target. Corrupted proofs / unknown bases must be refused; nothing may panic. Pool family: the set is pooled with its (possibly old) basis without modifying the caller's values; V2TransactionSet for every pooled transaction must return basis = tip, creators before spenders, the transaction last, leave its argument untouched, and be accepted by a fresh node. Non-trivial = a path with reverts and applies, or an ephemeral input confirmed midway.",
+	Rule: "rapid fork trees (v2 reachable) fed to one manager; (from, to) drawn from all valid nodes; a v2 transaction set valid at from (optionally starting with the transactions of a child block of from, plus payments, two-input merges, siafund spends, contract formations/revisions/renewals/proofs/expirations with ephemeral parents) built on the reference ledger and confirmed valid by core. UpdateV2TransactionSet on a deep copy must return the input order minus members confirmed on the path, every input that is live at the target must carry exactly the ledger's leaf index and proof (including ephemeral inputs confirmed on the way), everything must verify against the target accumulator, and - for height-independent kinds whose inputs nothing on the path touched - validate under core at the target. Corrupted proofs / unknown bases must be refused; nothing may panic. Pool family: the set is pooled with its (possibly old) basis without modifying the caller's values; V2TransactionSet for every pooled transaction must return basis = tip, creators before spenders, the transaction last, leave its argument untouched, and be accepted by a fresh node; the returned sets are kept while six more blocks arrive and must not change in the caller's hands, and writing to them must not change the pool. Non-trivial = a path with reverts and applies, or an ephemeral input confirmed midway.",
 	Assumptions: []string{
 		"from/to are asserted only when every block on the path was applied by the manager at some time (others carry no supplement and are legitimately refused)",
 		"UpdateV2TransactionSet documents that it may modify its argument; only AddV2PoolTransactions and V2TransactionSet are held to 'caller's values unchanged'",
